@@ -11,7 +11,9 @@ that are *not* found the normal way.  The names that are found the normal way ar
   * every class-level assignment target,
   * every `self.<name> = …` assignment inside the methods of the two classes,
 
-into `nsAttrs : List (List Char)` of lean/MakoModel/Generated/NsAttrs.lean.  It also emits `nsAttrWalksAtCallTime` (does `_NSAttr`
+into `nsAttrs : List (List Char)` of lean/MakoModel/Generated/NsAttrs.lean.  It also emits the facts behind the model of `<%include>` (`cleanPops`, `includeUsesCleanContext`,
+`populateSetsSelfLocal`: the included template starts from a context without the includer's self/parent/next and
+gets self/local of its own) and `nsAttrWalksAtCallTime` (does `_NSAttr`
 keep a reference and walk `.inherits` at call time with hasattr, as the model transcribes? - a named obligation
 of Props/C06.lean) and checks that
 `TemplateNamespace.__getattr__` has the shape the model transcribes (callables, has_def, inherits, raise;
@@ -110,6 +112,26 @@ def nsattr_walks_at_call_time(tree, rel):
     return body_text(funcs["__init__"]) == NSATTR_INIT and body_text(funcs["__getattr__"]) == NSATTR_GETATTR
 
 
+def include_facts(tree, rel):
+    """(names popped by Context._clean_inheritance_tokens, does _include_file hand that context to
+    _populate_self_namespace, does _populate_self_namespace set self and local)"""
+    ctx = find_class(tree, "Context", rel)
+    clean = find_func(ctx.body, "_clean_inheritance_tokens", rel)
+    pops = []
+    for n in ast.walk(clean):
+        if isinstance(n, ast.Call) and isinstance(n.func, ast.Attribute) and n.func.attr == "pop" and n.args \
+                and isinstance(n.args[0], ast.Constant) and isinstance(n.args[0].value, str):
+            pops.append(n.args[0].value)
+    inc = find_func(tree.body, "_include_file", rel)
+    uses = any(isinstance(n, ast.Call) and ast.unparse(n.func) == "_populate_self_namespace" and n.args
+               and ast.unparse(n.args[0]) == "context._clean_inheritance_tokens()" for n in ast.walk(inc))
+    pop_fn = find_func(tree.body, "_populate_self_namespace", rel)
+    sets = any(isinstance(n, ast.Assign) and sorted(ast.unparse(t) for t in n.targets) ==
+               ["context._data['local']", "context._data['self']"] and ast.unparse(n.value) == "self_ns"
+               for n in ast.walk(pop_fn))
+    return pops, uses, sets
+
+
 @group("NsAttrs")
 def gen(repo) -> str:
     rel = "mako/runtime.py"
@@ -131,5 +153,12 @@ def gen(repo) -> str:
     out.append("/-- `_NSAttr` keeps a reference to its namespace (no copy of the chain) and `_NSAttr.__getattr__` walks\n"
                "`.inherits` at the time of the call, testing `hasattr(ns.module, key)` - the code `nsattrF` transcribes -/\n")
     out.append("def nsAttrWalksAtCallTime : Bool := %s\n\n" % ("true" if nsattr_walks_at_call_time(tree, rel) else "false"))
+    pops, uses, sets = include_facts(tree, rel)
+    out.append("/-- the keys `Context._clean_inheritance_tokens` removes from the copy it returns -/\n")
+    out.append("def cleanPops : List (List Char) := [" + ", ".join(lstr(n) for n in pops) + "]\n\n")
+    out.append("/-- `_include_file` calls `_populate_self_namespace(context._clean_inheritance_tokens(), template)` -/\n")
+    out.append("def includeUsesCleanContext : Bool := %s\n\n" % ("true" if uses else "false"))
+    out.append("/-- `_populate_self_namespace` executes `context._data['self'] = context._data['local'] = self_ns` -/\n")
+    out.append("def populateSetsSelfLocal : Bool := %s\n\n" % ("true" if sets else "false"))
     out.append("end MakoModel.Generated.NsAttrs\n")
     return "".join(out)
